@@ -362,6 +362,40 @@ Proof.
   destruct (K4 Hw) as (Hu & _). auto.
 Qed.
 
+(* ... and it IS closed after the cancel, as far as a safety argument can say it: once the context
+   is cancelled, as long as the consumer has not seen the close, some step of this subscriber's own
+   pipeline (cleanup goroutine, forwarder, consumer) is enabled - it is never stuck before the close.
+   (The cleanup goroutine needs the manager mutex: while a broadcast is in progress it waits.) *)
+Definition pipeline_labels (i : nat) : list label :=
+  [LUnsub i; LFwdTake i; LFwdPut i; LFwdClose i; LRecvClosed i] ++ map (LRecv i) all_st.
+
+Lemma close_progress cfg ls s i x :
+  run (step cfg) init ls = Some s -> nth_error (subs s) i = Some x ->
+  cancelled x = true -> sg x = SLive -> gotclosed x = false ->
+  (unsub x = false -> pend s = []) ->
+  exists l, In l (pipeline_labels i) /\ step cfg s l <> None.
+Proof.
+  intros Hr Hx Hc Hl Hg Hp. apply inv_reach in Hr as [_ Hs]. specialize (Hs i x Hx).
+  unfold sub_ok in Hs. destruct Hs as (_ & K2 & _).
+  destruct (unsub x) eqn:Eu.
+  - destruct (wch x) as [|w r] eqn:Ew.
+    + destruct (hand x) as [v|] eqn:Eh.
+      * exists (LFwdPut i). split; [cbn; tauto|]. cbn [step]. unfold with_sub. rewrite Hx, Eh, Ew. discriminate.
+      * destruct (bch x) as [|v r] eqn:Eb.
+        -- destruct (wclosed x) eqn:Ewc.
+           ++ exists (LRecvClosed i). split; [cbn; tauto|]. cbn [step]. unfold with_sub.
+              rewrite Hx, Hl, Ew, Ewc, Hg. discriminate.
+           ++ exists (LFwdClose i). split; [cbn; tauto|]. cbn [step]. unfold with_sub.
+              rewrite Hx, Hl, Eh, Eb, K2, Ewc. discriminate.
+        -- exists (LFwdTake i). split; [cbn; tauto|]. cbn [step]. unfold with_sub.
+           rewrite Hx, Hl, Eh, Eb. discriminate.
+    + exists (LRecv i w). split.
+      * unfold pipeline_labels. apply in_or_app. right. apply in_map. destruct w; cbn; tauto.
+      * cbn [step]. unfold with_sub. rewrite Hx, Hl, Ew, st_eqb_refl. discriminate.
+  - exists (LUnsub i). split; [cbn; tauto|]. cbn [step]. rewrite (Hp eq_refl). cbn [is_nil].
+    unfold with_sub. rewrite Hx, Hc, Eu. discriminate.
+Qed.
+
 (* the two shapes the property allows: s0 :: changes, and the same with one leading duplicate *)
 Lemma expected_exact h r u : expected_stream h r r u = state_at h r :: segment h r u.
 Proof. reflexivity. Qed.
